@@ -70,7 +70,7 @@ def adopt(out, which, pid, n):
 
 def run(sdir, checks):
     meta = json.load(open(os.path.join(sdir, 'meta.json')))
-    checks = checks or [meta['property']]
+    checks = checks or [meta.get('detecting_check') or meta['property']]
     d = tempfile.mkdtemp(prefix='seedrun-')
     try:
         shutil.copytree(os.path.join(REPO, 'src'), d + '/src', ignore=shutil.ignore_patterns('__pycache__'))
@@ -107,14 +107,14 @@ def matrix(seeds):
         try:
             shutil.copytree(os.path.join(REPO, 'src'), d + '/src', ignore=shutil.ignore_patterns('__pycache__'))
             sh(['patch', '-p1', '-s', '-d', d, '-i', os.path.abspath(os.path.join(sdir, 'patch.diff'))])
-            rr = sh([os.path.join(VERIF, 'vcheck'), meta['property'], '--no-evidence', '--seed', str(seed), '--shards', '6'],
+            rr = sh([os.path.join(VERIF, 'vcheck'), meta.get('detecting_check') or meta['property'], '--no-evidence', '--seed', str(seed), '--shards', '6'],
                     env=dict(os.environ, NDN_REPO=d))
             return os.path.basename(sdir), seed, rr.returncode
         finally:
             shutil.rmtree(d, ignore_errors=True)
     jobs = [(d, s) for d in dirs for s in seeds]
     res = {}
-    with ThreadPoolExecutor(max_workers=2) as ex:
+    with ThreadPoolExecutor(max_workers=int(os.environ.get('MATRIX_JOBS', '2'))) as ex:
         for name, seed, rc in ex.map(one, jobs):
             res.setdefault(name, {})[seed] = rc
             print(name, seed, rc, flush=True)
